@@ -275,7 +275,7 @@ func checkC09(c *Ctx) {
 	if ri := c.Root(pkgHTTP, "_http.pb.go"); ri == nil {
 		r.Unres("R09f", "_http.pb.go", "", "unit not found")
 	} else {
-		ex := c.Explore(ri.Fn, 1, 4000)
+		ex := c.ExploreT(ri.Fn, 4000)
 		for _, v := range ex.Variants {
 			for _, u := range v.Units {
 				for _, l := range u.Lines {
